@@ -56,12 +56,12 @@ PROPS = {
         'side': {'unit': 'side_c15', 'mount': 'src/lib.rs', 'mod': 'verif_side_c15', 'test': 'verif_side_c15', 'iters_quick': 40, 'iters_thorough': 2000},
         'trusted_base': COMMON_TB + ['CBMC floating-point semantics for f64 comparison, `as i64` and to_bits (bit-precise; f64 % is not used by the contracted code)'],
         'assumptions': [
-            'ToInt32/ToUint32 clause only: decimal printing (number_to_string), literal / Number() parsing and toFixed/toPrecision/toExponential/toString(radix) are NOT verified',
+            'proof for the ToInt32/ToUint32 clause only: decimal printing (number_to_string), literal / Number() parsing and toFixed/toPrecision/toExponential/toString(radix) are NOT verified by any contract (float formatting is outside Verus and CBMC); they are TESTED by the second half of the side battery against exact decimal arithmetic over the structured families of the quantifier (about 160 000 cases quick) - testing, never counted as proved',
             'the link from to_int32/to_uint32 to the 13 operator sites in execute_op, the three compiler operator tables (binary, compound assignment, enum initialisers) and parseInt\'s radix is a syntactic side obligation + native replay battery (testing, not a proof)',
         ],
         'explanation': 'Kani contract on the real value::to_uint32 / to_int32 for all 2^64 f64 bit patterns against an integer-only specification of '
                        '"truncate toward zero, then wrap modulo 2^32"; loop-free, hence complete.',
-        'not_carried': 'shortest round-trip printing, literal/Number() parsing, toFixed/toPrecision/toExponential/toString(radix)',
+        'not_carried': 'shortest round-trip printing, literal/Number() parsing, toFixed/toPrecision/toExponential/toString(radix) (tested by the side battery only)',
     },
     'C10': {
         'verus': [BUILDER_VERUS],
